@@ -30,7 +30,7 @@ func (r *Rng) Intn(n int) int {
 	return int(r.U64() % uint64(n))
 }
 func (r *Rng) Range(lo, hi int) int { return lo + r.Intn(hi-lo+1) } // inclusive
-func (r *Rng) Bool() bool          { return r.U64()&1 == 1 }
+func (r *Rng) Bool() bool           { return r.U64()&1 == 1 }
 func (r *Rng) Pick(xs []int) int    { return xs[r.Intn(len(xs))] }
 
 // ---- run context ----
